@@ -458,6 +458,13 @@ theorem zone_limiter_counts_in_flight (perZone : Nat) (ops : List ZOp) :
         · exact h2
         · simp only; omega
 
+/-- every upstream attempt returns its `MaxConcurrentQueries` slot however it
+ends, so after any history of attempts the limiter is where it started -/
+theorem attempt_slot_returned_on_every_exit (exits : List AttemptExit) : attemptSlots 0 exits = 0 := by
+  induction exits with
+  | nil => rfl
+  | cons e es ih => simpa [attemptSlots] using ih
+
 /-! ## Resolver.groupLookup: a failed leader's error stays local -/
 
 /-- **Request-local leader errors are not handed to followers.**  A caller
@@ -555,6 +562,7 @@ example : (procScenario 1 false (effectiveError .none true true) true).pc = .ter
 example : (({} : Worker).run [.quick 1, .quick 2, .slow 3]).sent = [1, 2] ∧
     (({} : Worker).run [.quick 1, .quick 2, .slow 3]).held = [] := by decide
 
+example : attemptSlots 0 [.contextDead, .breakerOpen, .resultDropped, .resultSent] = 0 := by decide
 -- quota 2: two admitted, two shed, both leave: the counter is back at zero and the zone is open again
 example :
     let z := [ZOp.enter, .enter, .enter, .enter, .leave, .leave].foldl (ZL.step 2) {}
